@@ -292,6 +292,9 @@ def classify_sites(chk, sf):
                     why = why2
             elif k == "impl" and (g.get("trait") or "").split("::")[-1].split("<")[0] in NEUTRAL_IMPL_TRAITS:
                 kind = "neutral-impl"
+            elif k == "impl" and feats == {"bit-vec"} and (g.get("trait") or "").split("::")[-1] == "TypeInfo" and (g.get("self_ty") or g.get("ident") or "").replace(" ", "").startswith("bitvec::"):
+                # the bit-vec impls outside their module: still only `impl TypeInfo for bitvec::..` (types that do not exist without the feature)
+                kind = "bit-vec-impl"
             elif k == "trait" and g["ident"] == "JsonSchemaMaybe":
                 kind = "neutral-trait"
             elif k == "impl-fn" and feats <= {"docs"} and g["member"]["ident"] in ("docs", "docs_portable"):
@@ -574,6 +577,8 @@ def neutral_only(prog, path):
     sp = mir.strip_generics(path)
     if sp.startswith("scale_info::impls::bit_vec::"):
         return True
+    if tr.split("::")[-1] == "TypeInfo" and "impl_self_ty" in root and prog.ty(root["impl_self_ty"])["s"].startswith("bitvec::"):
+        return True   # `impl TypeInfo for bitvec::..`, wherever it is written: the described type does not exist without the feature
     if root.get("name") == "docs_portable":
         return True
     return False
